@@ -902,6 +902,32 @@ def rule_badfilter(program, ctx, prop=P, rid="C01.badfilter"):
             ctx.ok(rid, h, "an unusable filter is reduced to `false`")
 
 
+def rule_tagclause(program, ctx, prop=P, rid="C01.tagclause"):
+    ctx.rule(
+        rid,
+        "a tag member of a filter always constrains: in db.Subscription.evaluate_filter every iteration of the loop over `filter_obj.tags` either appends a clause to "
+        "`subwhere` or raises ValueError (build_query turns that filter into `false`) - a `#t` member whose value list is empty (or holds only empty strings) must not "
+        "simply be left out: `{kinds:[1], \"#t\": []}` would return every kind-1 event, none of which satisfies the member (the live matcher says False for all of them)",
+        floor=1,
+    )
+    fn = program.func("nostr_relay.storage.db:Subscription.evaluate_filter")
+    cfg = cfg_of(fn)
+    loops = [n for n, d in cfg.g.nodes(data=True) if d["kind"] == "loop" and isinstance(d["ast"], ast.For) and "tags" in ast.unparse(d["ast"].iter) and "filter" in ast.unparse(d["ast"].iter)]
+    if not loops:
+        raise AnalysisError("evaluate_filter: loop over the filter's tags not found")
+    done = cfg.stmt_nodes(lambda s: isinstance(s, ast.Raise) or any(isinstance(c.func, ast.Attribute) and c.func.attr in ("append", "add", "extend") and dotted(c.func.value) == "subwhere" for c in own_calls(s)), kinds=("stmt",))
+    for lp in loops:
+        body = list(cfg.succ(lp, kinds={"t"}))
+        inner = {n for n, d in cfg.g.nodes(data=True) if d["kind"] == "loop" and n != lp and any(d["ast"] is x for x in ast.walk(cfg.ast_of(lp)))}
+        path = cfg.find_path(body, [lp], avoid_nodes=done, kinds=NORMAL)
+        if path:
+            last = next((cfg.ast_of(n) for n in reversed(path[:-1]) if cfg.ast_of(n) is not None and n not in inner), fn)
+            ctx.bad(finding_at(prop, rid, last, "a tag member whose value list yields no usable value adds no clause and raises nothing: the member is ignored and the filter matches events "
+                               "that do not carry the tag at all", path=cfg.describe_path(path)[-4:], text="tag member without clause"))
+        else:
+            ctx.ok(rid, cfg.ast_of(lp), "every tag member adds a clause or voids the filter")
+
+
 def rule_allfilters(program, ctx, prop=P, rid="C01.allfilters"):
     ctx.rule(
         rid,
@@ -954,6 +980,7 @@ def run(program, ctx):
     rule_badfilter(program, ctx)
     rule_hex_total(program, ctx)
     rule_allfilters(program, ctx)
+    rule_tagclause(program, ctx)
     from . import c04, c16
 
     # the live matcher's authors/delegation clause: has_tag's first result alone says nothing about *which* delegator
@@ -974,8 +1001,10 @@ MUTANTS = [
     M("c01-single-query-skips-invalid", "nostr_relay/storage/db.py", "        nostr_queries = [NostrQuery.model_validate(q) for q in query_filters]", "        nostr_queries = [NostrQuery.model_validate(q) for q in query_filters if isinstance(q, dict)]", "C01.allfilters"),
     M("c01-delegation-found-decides", "nostr_relay/storage/base.py", "                if match:\n                    matched.add(True)", "                if has_delegation:\n                    matched.add(True)", "C01.hastag"),
     M("c01-skip-empty-id", "nostr_relay/storage/base.py", "        hexid = hexid.lower()\n", "        hexid = hexid.lower()\n        if not hexid:\n            continue\n", "C01.hextotal"),
-    M("c01-tagname-unescaped", DB, "                tagname = tagname.replace(\"'\", \"''\")\n", "", "C01.sql"),
-    M("c01-value-quote-undoubled", DB, "                        val = val.replace(\"'\", \"''\")\n", "", "C01.sql", canary=True),
+    M("c01-tagname-unescaped", DB, "                tagname = tagname.replace(\"'\", \"''\").replace(\":\", \"\\\\:\")\n", "", "C01.sql"),
+    M("c01-value-colon-unescaped", DB, "val.replace(\"'\", \"''\").replace(\":\", \"\\\\:\")", "val.replace(\"'\", \"''\")", "C01.sql"),
+    M("c01-empty-tag-values-ignored", DB, "                else:\n                    # no usable value: the member matches nothing (like ids/authors/kinds)\n                    raise ValueError(\"tags\")\n", "", "C01.tagclause"),
+    M("c01-value-quote-undoubled", DB, "                        val = val.replace(\"'\", \"''\").replace(\":\", \"\\\\:\")\n", "", "C01.sql", canary=True),
     M("c01-value-wrong-replace", DB, "val.replace(\"'\", \"''\")", "val.replace('\"', '\"\"')", "C01.sql"),
     M("c01-kinds-unconverted", DB, "\",\".join(str(k) for k in filter_obj.kinds)", "\",\".join(filter_obj.search or \"\")", "C01.sql"),
     M("c01-hex-alphabet-widened", BASE, "if any(i not in \"abcdef0123456789\" for i in hexid):", "if any(i not in \"abcdef0123456789' \" for i in hexid):", "C01.model"),
@@ -994,7 +1023,7 @@ MUTANTS = [
 
 EQUIVS = [
     E("c01-eq-kinds-percent", DB, "\"kind IN ({})\".format(\",\".join(str(k) for k in filter_obj.kinds))", "\"kind IN (%s)\" % \",\".join(str(int(k)) for k in filter_obj.kinds)"),
-    E("c01-eq-value-inline-replace", DB, "                        val = val.replace(\"'\", \"''\")\n                        pstr.append(f\"'{val}'\")", "                        quoted = val.replace(\"'\", \"''\")\n                        pstr.append(\"'\" + quoted + \"'\")"),
+    E("c01-eq-value-inline-replace", DB, "                        val = val.replace(\"'\", \"''\").replace(\":\", \"\\\\:\")\n                        pstr.append(f\"'{val}'\")", "                        quoted = val.replace(\":\", \"\\\\:\").replace(\"'\", \"''\")\n                        pstr.append(\"'\" + quoted + \"'\")"),
 ]
 
 # functions whose syntactic mutants are used for the thorough tier's sensitivity figure (sa/automut.py)
